@@ -63,7 +63,9 @@ Leaves ==
           NTpl("q", <<NTLit("a"), NInterp(0, NVar("s"))>>),
           NUn("-", NVar("n1")),
           NTuple(<<NVar("s"), StrLit("a")>>),
-          NParen(NParen(NVar("n1")))}
+          NParen(NParen(NVar("n1"))),
+          \* an object with computed attribute names INSIDE an unmarked tuple
+          NTuple(<<NFor("object", 1, "v", NVar("m"), NVar("v"), NVar("k"), NNone)>>)}
 
 PNum  == {NVar("n1"), NNum(4), NNum(0), NVar("sn"), NVar("s"), NVar("nul")}
 PBool == {NVar("b"), NBool(FALSE), NVar("nul"), NVar("s")}
